@@ -3,7 +3,10 @@
 // start and thread end are the scheduling points. The explorer decides at every point which enabled thread runs.
 package vsched
 
-import "fmt"
+import (
+	"fmt"
+	"strings"
+)
 
 type thread struct {
 	id      int
@@ -11,7 +14,13 @@ type thread struct {
 	done    bool
 	blocked interface{} // non-nil: waiting for this lock
 	label   string
+	seen    map[string]int // dynamic instances of each statement-level yield site met so far
 }
+
+// MaxPerSite bounds the scheduling points of one thread: only the first MaxPerSite dynamic instances of each
+// statement-level yield site (label "<pkg>.<func>#<n>") are scheduling points, later instances run through
+// (0 = no bound). Lock operations and thread start/end are always scheduling points.
+var MaxPerSite = 0
 
 type Point struct {
 	Enabled []int // canonical order: the running thread first if it is still enabled, then ascending ids
@@ -38,6 +47,15 @@ func Yield(label string) {
 		return
 	}
 	t := s.cur
+	if MaxPerSite > 0 && strings.Contains(label, "#") {
+		if t.seen == nil {
+			t.seen = map[string]int{}
+		}
+		t.seen[label]++
+		if t.seen[label] > MaxPerSite {
+			return
+		}
+	}
 	t.label = label
 	s.parked <- t
 	<-t.resume
@@ -70,7 +88,9 @@ func Unblock(lock interface{}) {
 
 type Deadlock struct{ Waiting []int }
 
-func (d Deadlock) Error() string { return fmt.Sprintf("deadlock: threads %v wait for locks nobody will release", d.Waiting) }
+func (d Deadlock) Error() string {
+	return fmt.Sprintf("deadlock: threads %v wait for locks nobody will release", d.Waiting)
+}
 
 // Run executes bodies under the scheduler; choose picks the next thread at every point. It returns a Deadlock
 // error when unfinished threads are all blocked. A panic inside a thread is re-raised in the caller.
